@@ -340,8 +340,14 @@ def c04_r5(ctx):
     ctx.ob(run, bool(res["normal"]) and bad is None, "run(): obtain writer, replay events, commit last",
            detail=fmt(bad) if bad else "")
     # the writer-obtaining loop only exits with a writer
-    loops = [n for n in ast.walk(run.node) if isinstance(n, ast.While)]
-    ok = wvar is not None and any(norm.canon(lp.test) in ("(%s is None)" % wvar, "(None is %s)" % wvar, "(not %s)" % wvar) for lp in loops)
+    # wherever the recorded events start to be replayed, the writer is known to be there (the loop cannot be left without one)
+    fr = guards.Facts(run)
+    ok = False
+    for n_ in fr.g.nodes:
+        if n_.kind in ("for", "iter_init") and isinstance(n_.ast, ast.For) and norm.canon(n_.ast.iter) == "self.events":
+            facts = fr.at(n_) or frozenset()
+            ok = wvar is not None and (("F", "(None is %s)" % wvar) in facts or ("T", wvar) in facts)
+            break
     ctx.ob(run, ok, "the acquisition loop repeats while no writer was obtained")
     # events are replayed in recorded order
     fors = [n for n in ast.walk(run.node) if isinstance(n, ast.For)]
